@@ -26,6 +26,11 @@ from . import lib, runner, callsym, seqsem
 AGENTS3 = ["o1", "o2", "o3"]
 
 
+def _budget():
+    from symx.core import task_budget
+    return task_budget()
+
+
 def agent_of(call):
     return call[1][0]
 
@@ -172,7 +177,7 @@ def run_convert(task):
             if r == "sat":
                 _report(ctx, res, comp, atoms, fl_all, final[0], joint, z3.Not(final[1]))
 
-        explore(fn, on_path, stats=stats, max_paths=task.get("max_paths", 3000), timeout_ms=5000)
+        explore(fn, on_path, stats=stats, max_paths=task.get("max_paths", 3000), timeout_ms=5000, time_budget_s=_budget())
         if res["reached"] == 0 and res["outcome"] == "held":
             res["outcome"] = "vacuous"
     except Inconclusive as e:
